@@ -105,6 +105,7 @@ def run(tier, seed, t0):
     # budget the pool by cores: a 16-thread run takes the machine
     with ThreadPoolExecutor(max_workers=4) as ex:
         results = list(ex.map(do, jobs))
+    timeouts = []
     for (s, ncpu, vg), rc, out, err, to, wall in results:
         tag = "main/%s/ncpu%d" % ("memcheck" if vg else "asan", ncpu)
         m.evaluations += 1
@@ -117,7 +118,9 @@ def run(tier, seed, t0):
                     "main_output_files": len(os.listdir(os.path.join(s["dir"], "out", "cell_data"))) if os.path.isdir(os.path.join(s["dir"], "out", "cell_data")) else 0})
         replay = {"custom": True, "flavour": "vg" if vg else "asan", "argv": ["python3", "tools/c10_replay.py", str(seed), str(s["i"]), "vg" if vg else "asan", str(ncpu)] + (mk_vg if vg else mk_main), "scenario": s}
         if to:
-            m.inconclusive.append("%s scenario %s timed out after %.0fs" % (tag, s["i"], wall)); continue
+            # an unstable scenario (exploding coordinates make the refiner run practically forever) says nothing about memory safety:
+            # counted, and inconclusive only if it happens to more than 15 % of the runs (checked below)
+            timeouts.append("%s scenario %s timed out after %.0fs" % (tag, s["i"], wall)); m.add_bins({"main_runs_timed_out": 1}); continue
         reported = False
         if vg:
             logp = os.path.join(s["dir"], "vg.log")
@@ -137,6 +140,11 @@ def run(tier, seed, t0):
         if len(m.samples) < 12:
             m.samples.append({"inv": tag, "scenario": s, "exit": rc, "iterations_run": n_it, "cell_counts_seen": cells_seen, "wall_s": round(wall, 1), "report": reported})
         shutil.rmtree(s["dir"], ignore_errors=True)
+    # a hang is not a memory-safety verdict: time-outs of monitored runs are inconclusive, never violations of C10
+    for v in [v for v in m.violations if v.get("timeout")]:
+        m.violations.remove(v); m.inconclusive.append("timed out in %s: %s" % (v["inv"], v["replay"]))
+    if len(timeouts) > 0.15 * max(1, len(results)):
+        m.inconclusive.extend(timeouts)
     floors = {
         "main_asan_runs": (sum(v for k, v in m.bins.items() if k.startswith("cases@main/asan")), n_main),
         "main_memcheck_runs": (sum(v for k, v in m.bins.items() if k.startswith("cases@main/memcheck")), n_vg),
